@@ -168,8 +168,12 @@ Items(c, what) ==
          ELSE IF what = "values" THEN [i \in 1..Len(c.s) |-> c.s[i][2]]   \* by ascending key
          ELSE [i \in 1..Len(c.s) |-> ListV(<<c.s[i][1], c.s[i][2]>>)]
     [] c.k = "str"  -> [i \in 1..Len(c.s) |-> StrV(<<c.s[i]>>)]
+    [] c.k = "obj"  ->                                       \* members in the order they were given
+         IF what = "keys" THEN [i \in 1..Len(c.s) |-> StrV(c.s[i][1])]
+         ELSE IF what = "values" THEN [i \in 1..Len(c.s) |-> c.s[i][2]]
+         ELSE [i \in 1..Len(c.s) |-> ListV(<<StrV(c.s[i][1]), c.s[i][2]>>)]
     [] OTHER -> << >>
-Iterable(c) == c.k \in {"list", "set", "map", "str"}
+Iterable(c) == c.k \in {"list", "set", "map", "str", "obj"}
 
 -----------------------------------------------------------------------------
 RECURSIVE Ev(_, _, _)
@@ -185,6 +189,7 @@ RECURSIVE EvMapItems(_, _, _, _, _)
 RECURSIVE EvAnd(_, _, _, _)
 RECURSIVE EvOr(_, _, _, _)
 RECURSIVE Destructure(_, _, _, _, _, _, _)
+RECURSIVE EachCall(_, _, _, _)
 RECURSIVE EvCompr(_, _, _, _, _, _)
 RECURSIVE EvCompr2(_, _, _, _, _, _)
 RECURSIVE Apply(_, _, _, _)          \* FuncLambda.execute after Args.setArgs
@@ -410,6 +415,11 @@ Apply(fv, names, vals, st) ==
        ELSE IF r.o.t \in {"brk", "cont"} THEN R(RErr, r.st)       \* stray break / continue
        ELSE r
 
+EachCall(fv, items, i, st) ==
+  IF i > Len(items) THEN R(Val(Null), st)                  \* (what the native returns is not used by the families)
+  ELSE LET r == Apply(fv, <<StrV(<< >>)>>, <<items[i]>>, st) IN
+       IF ~IsVal(r) THEN r ELSE EachCall(fv, items, i + 1, r.st)
+
 \* comprehensions: a = <<value expr (a "kv" node <<key, value>> for maps), id, what, list expr, cond or "none">>
 EvCompr(node, items, i, le, st, acc) ==
   \* the condition decides first, the value is evaluated only for accepted elements: that is what the
@@ -485,6 +495,13 @@ Ev(node, e, st) ==
          ELSE LET r == Ev(node.a[1], e, st) IN IF ~IsVal(r) THEN r ELSE R(O("ret", r.o.v), r.st)
     [] node.n = "error" ->
          LET r == Ev(node.a[1], e, st) IN IF ~IsVal(r) THEN r ELSE R(Err(r.o.v), r.st)
+    [] node.n = "each" ->                                 \* a native that calls a user function once per element, in
+         LET c == Ev(node.a[1], e, st) IN                 \* order (process_lines(lines, f), find(list, x, key = f)): an
+         IF ~IsVal(c) THEN c                              \* error of the function travels through the native unchanged
+         ELSE LET f == Ev(node.a[2], e, c.st) IN
+              IF ~IsVal(f) THEN f
+              ELSE IF f.o.v.k # "fn" \/ c.o.v.k # "list" THEN R(RErr, f.st)
+              ELSE EachCall(f.o.v, c.o.v.s, 1, f.st)
     [] node.n = "input" -> Ev(node.a[1], e, st)           \* str_input(text): its lines, iterated like a list of strings
     [] node.n = "evalstr" -> Ev(node.a[1], e, st)         \* eval('<source>'): the code runs in the caller's frame
     [] node.n = "log" ->                                  \* log(x): append to the observation list
